@@ -36,6 +36,12 @@ StringTokenizer::StringTokenizer(const std::string& s, const std::string& delimi
   }
   else
   {
+    if (delimiters.empty())
+    {
+      // No delimiter: the whole string is one token (as in the non-solid mode).
+      tokens_.push_back(s);
+      return;
+    }
     string::size_type index = 0;
     while (index != s.npos)
     {
